@@ -30,6 +30,7 @@ func main() {
 		for i, c := range fixedBuffer() {
 			fmt.Fprintln(w, emitBuffer(fmt.Sprintf("c20-bfix-%d", i), c, r, st))
 		}
+		fmt.Fprintln(w, emitBuffer("c20-overlap-0", overlapCase(), r, st))
 		for i, c := range fixedApp() {
 			fmt.Fprintln(w, emitBuffer(fmt.Sprintf("c20-app-%d", i), c, r, st))
 		}
@@ -65,6 +66,7 @@ func main() {
 			if k.CloseRace && k.G < 2 {
 				k.G = 2
 			}
+			k.Flaky = i%6 == 2 // … and one in six goes to a console handler on an output with temporary write errors
 			fmt.Fprintln(w, emitStress(fmt.Sprintf("c20-z-%d-%d", a.Seed, i), k, st))
 		}
 		st.Emit(w)
